@@ -105,10 +105,10 @@ mod verif_c03 {
         }
     }
 
-    /// str / bytes: varint(usize) length, that many bytes, UTF-8 validity for str. All byte strings <= 5.
+    /// bytes: varint(usize) length, that many bytes. All byte strings <= 5.
     #[kani::proof]
     #[kani::unwind(12)]
-    fn dec_str_bytes() {
+    fn dec_bytes() {
         let (b, l) = input::<5>();
         let inp = &b[..l];
         let want = ref_dec(inp, 64);
@@ -123,61 +123,91 @@ mod verif_c03 {
             (Err(e), Err(f)) => same_err(&e, f.clone()),
             (Ok(_), Err(_)) => panic!("SPEC: accepted a byte array with an invalid length varint"),
         }
-        match (take_from_bytes::<&str>(inp), &want) {
-            (Ok((v, rest)), Ok((n, used))) => {
-                let n = *n as usize;
-                assert!(n <= l - *used);
-                assert!(v.len() == n && v.as_ptr() == inp[*used..].as_ptr());
-                assert!(core::str::from_utf8(&inp[*used..*used + n]).is_ok(), "SPEC: accepted invalid UTF-8");
-                assert!(rest.len() == l - *used - n);
+    }
+
+    /// Well-formed UTF-8 byte sequences (Unicode Standard, Table 3-7), for strings of at most 3 bytes.
+    fn ref_utf8_ok(s: &[u8]) -> bool {
+        let mut i = 0;
+        while i < s.len() {
+            let b0 = s[i];
+            if b0 < 0x80 {
+                i += 1;
+            } else if b0 >= 0xC2 && b0 <= 0xDF {
+                if i + 1 >= s.len() || s[i + 1] < 0x80 || s[i + 1] > 0xBF { return false; }
+                i += 2;
+            } else if b0 >= 0xE0 && b0 <= 0xEF {
+                if i + 2 >= s.len() { return false; }
+                let lo = if b0 == 0xE0 { 0xA0 } else { 0x80 };
+                let hi = if b0 == 0xED { 0x9F } else { 0xBF };
+                if s[i + 1] < lo || s[i + 1] > hi || s[i + 2] < 0x80 || s[i + 2] > 0xBF { return false; }
+                i += 3;
+            } else {
+                return false; // 4-byte forms need more than 3 bytes; C0, C1, F5.. are never valid
             }
-            (Err(e), Ok((n, used))) => {
-                if *n > (l - *used) as u128 { same_err(&e, Error::DeserializeUnexpectedEnd) }
+        }
+        true
+    }
+
+    /// str: single-byte length n <= 3, that many bytes, well-formed UTF-8. All such byte strings (<= 4 bytes); longer length
+    /// prefixes take the same try_take_varint_usize + try_take_n path that dec_bytes covers.
+    #[kani::proof]
+    #[kani::unwind(5)]
+    fn dec_str() {
+        let (b, l) = input::<4>();
+        kani::assume(b[0] < 0x80);
+        let inp = &b[..l];
+        match take_from_bytes::<&str>(inp) {
+            Ok((v, rest)) => {
+                let n = b[0] as usize;
+                assert!(l >= 1 && n <= l - 1, "SPEC: accepted a string longer than the input");
+                assert!(v.len() == n && v.as_ptr() == inp[1..].as_ptr(), "SPEC: borrowed str must be the n bytes after the length");
+                assert!(ref_utf8_ok(&inp[1..1 + n]), "SPEC: accepted invalid UTF-8");
+                assert!(rest.len() == l - 1 - n);
+            }
+            Err(e) => {
+                if l == 0 || (b[0] as usize) > l - 1 { same_err(&e, Error::DeserializeUnexpectedEnd) }
                 else {
-                    let n = *n as usize;
-                    assert!(core::str::from_utf8(&inp[*used..*used + n]).is_err(), "SPEC: rejected a valid string");
+                    let n = b[0] as usize;
+                    assert!(!ref_utf8_ok(&inp[1..1 + n]), "SPEC: rejected a valid string");
                     same_err(&e, Error::DeserializeBadUtf8)
                 }
             }
-            (Err(e), Err(f)) => same_err(&e, f.clone()),
-            (Ok(_), Err(_)) => panic!("SPEC: accepted a string with an invalid length varint"),
         }
     }
 
-    /// char: a string holding exactly ONE unicode scalar value (1..=4 UTF-8 bytes). All byte strings <= 6.
+    /// char: a string holding exactly ONE unicode scalar value (1..=4 UTF-8 bytes). Every byte string of <= 6 bytes whose
+    /// length prefix is a single byte (multi-byte length prefixes claim >= 128 bytes and share the varint path of dec_bytes).
     #[kani::proof]
-    #[kani::unwind(12)]
+    #[kani::unwind(7)]
     fn dec_char() {
         let (b, l) = input::<6>();
+        kani::assume(b[0] < 0x80);
         let inp = &b[..l];
-        let want = ref_dec(inp, 64);
-        match (take_from_bytes::<char>(inp), &want) {
-            (Ok((c, rest)), Ok((n, used))) => {
-                let n = *n as usize;
-                assert!(n >= 1 && n <= 4 && n <= l - *used, "SPEC: a char is 1..=4 UTF-8 bytes");
+        match take_from_bytes::<char>(inp) {
+            Ok((c, rest)) => {
+                let n = b[0] as usize;
+                assert!(l >= 1 && n >= 1 && n <= 4 && n <= l - 1, "SPEC: a char is 1..=4 UTF-8 bytes");
                 let mut u = [0u8; 4];
                 let enc = c.encode_utf8(&mut u);
                 assert!(enc.len() == n, "SPEC: accepted a string that is not the UTF-8 form of exactly one scalar value");
                 let i: usize = kani::any();
                 kani::assume(i < n);
-                assert!(enc.as_bytes()[i] == inp[*used + i], "SPEC: decoded char differs from the encoded scalar");
-                assert!(rest.len() == l - *used - n);
+                assert!(enc.as_bytes()[i] == inp[1 + i], "SPEC: decoded char differs from the encoded scalar");
+                assert!(rest.len() == l - 1 - n);
             }
-            (Err(e), Ok((n, used))) => {
-                if *n > 4 { same_err(&e, Error::DeserializeBadChar) }
-                else if *n > (l - *used) as u128 { same_err(&e, Error::DeserializeUnexpectedEnd) }
+            Err(e) => {
+                if l == 0 { same_err(&e, Error::DeserializeUnexpectedEnd) }
+                else if b[0] > 4 { same_err(&e, Error::DeserializeBadChar) }
+                else if (b[0] as usize) > l - 1 { same_err(&e, Error::DeserializeUnexpectedEnd) }
                 else { same_err(&e, Error::DeserializeBadChar) }
             }
-            (Err(e), Err(f)) => same_err(&e, f.clone()),
-            (Ok(_), Err(_)) => panic!("SPEC: accepted a char with an invalid length varint"),
         }
     }
     /// char, the other direction: every valid single-scalar encoding is accepted (with any tail)
     #[kani::proof]
-    #[kani::unwind(12)]
+    #[kani::unwind(7)]
     fn dec_char_accepts_valid() {
         let c: char = kani::any();
-        kani::assume(c.len_utf8() <= 2);
         let mut buf = [0u8; 6];
         let n = c.encode_utf8(&mut buf[1..5]).len();
         buf[0] = n as u8;
